@@ -457,19 +457,32 @@ pub fn replay_arith(case: &Value, rep: &mut Report, rng: &mut Rng) {
                     }
                 }
             }
-            // Float mode for the products: the matrix-vector product is, row by row, the left-to-right single-precision
-            // sum of the single-precision products (no fused multiply-add, no re-association); the outer product and the
-            // transpose are exact element by element.
+            // Float mode for the products: the outer product and the transpose are exact element by element; the
+            // matrix-vector product is checked within a rounding bound (below).
             if matches!(op, "dot" | "product" | "transpose") {
                 let fa = same_shape_random(&acc, rng);
                 let fargs: Vec<Tensor> = args.iter().map(|t| same_shape_random(t, rng)).collect();
                 if let Ok(fr) = apply_arith(&fa, op, &fargs, &step["extra"]) {
                     use neurons::tensor::Data;
-                    let want: Option<Vec<f32>> = match (op, &fa.data) {
-                        ("dot", Data::Double(m)) => {
-                            let v = flat(&fargs[0]);
-                            Some(m.iter().map(|row| row.iter().zip(v.iter()).fold(0.0f32, |s, (a, b)| s + a * b)).collect())
+                    // the matrix-vector product is a SUM: its definition does not fix the order or the rounding of the partial
+                    // sums, so it is compared within a rounding bound of the sum of the magnitudes (a fused or pairwise
+                    // summation is a correct implementation; C05 decides whether the result depends on the schedule)
+                    if let ("dot", Data::Double(m)) = (op, &fa.data) {
+                        let v = flat(&fargs[0]);
+                        let got = flat(&fr);
+                        rep.checks += 1;
+                        for (r, row) in m.iter().enumerate() {
+                            let exact: f64 = row.iter().zip(v.iter()).map(|(a, b)| *a as f64 * *b as f64).sum();
+                            let mag: f64 = row.iter().zip(v.iter()).map(|(a, b)| (*a as f64 * *b as f64).abs()).sum();
+                            let bound = 1e-6 * mag * (row.len() as f64).max(1.0) + 1e-40;
+                            let g = got.get(r).copied().unwrap_or(f32::NAN) as f64;
+                            if exact.is_finite() && mag < 1e37 && !((g - exact).abs() <= bound) {
+                                rep.mismatch("C15", "float_value", &id, json!({"step": i, "op": op, "row": r, "observed": format!("{:e}", g), "expected": format!("{:e}", exact), "bound": format!("{:e}", bound)}), case);
+                                return;
+                            }
                         }
+                    }
+                    let want: Option<Vec<f32>> = match (op, &fa.data) {
                         ("product", Data::Single(a)) => {
                             let b = flat(&fargs[0]);
                             Some(a.iter().flat_map(|x| b.iter().map(move |y| x * y)).collect())
